@@ -13,6 +13,32 @@ use std::collections::{BTreeSet, VecDeque};
 use std::panic::{catch_unwind, AssertUnwindSafe};
 
 use generic_array::typenum::Unsigned;
+#[allow(unused_imports)]
+use crate::ops::OpKind;
+
+
+/// A group of executors: a thin wrapper around the world. Its methods live in the group's own
+/// module (and therefore codegen unit); fields and shared methods of the world are reached
+/// through Deref.
+#[macro_export]
+macro_rules! ops_group {
+    ($name:ident) => {
+        pub struct $name<'a, E: $crate::elem::Elem>(pub &'a mut $crate::world::World<E>);
+        impl<'a, E: $crate::elem::Elem> core::ops::Deref for $name<'a, E> {
+            type Target = $crate::world::World<E>;
+            #[inline]
+            fn deref(&self) -> &$crate::world::World<E> {
+                self.0
+            }
+        }
+        impl<'a, E: $crate::elem::Elem> core::ops::DerefMut for $name<'a, E> {
+            #[inline]
+            fn deref_mut(&mut self) -> &mut $crate::world::World<E> {
+                self.0
+            }
+        }
+    };
+}
 
 pub const POOL_CAP: usize = 3;
 pub const LOOSE_CAP: usize = 12;
@@ -120,6 +146,11 @@ impl Cx {
         let _g = enter(Ctx::Infra);
         *self.probes.entry(name).or_insert(0) += 1;
     }
+}
+
+fn infra<R>(f: impl FnOnce() -> R) -> R {
+    let _g = enter(Ctx::Infra);
+    f()
 }
 
 pub fn cov_hash(parts: &[u64]) -> u64 {
@@ -576,6 +607,62 @@ pub fn alloc_flag_text(f: u64) -> String {
         v.push("release of a block that is not allocated (double free or foreign pointer)".to_string());
     }
     v.join("; ")
+}
+
+
+impl<E: Elem> World<E> {
+    pub fn noop(&mut self, cx: &mut Cx) {
+        cx.ops_noop += 1;
+    }
+
+    pub fn it_cov(&self, cx: &mut Cx, kind: OpKind, i: usize, arg: u64) {
+        let io = &self.its[i];
+        let n = io.it.len() as u64;
+        let front = io.front as u64;
+        let back = front + io.model.len() as u64;
+        cx.cov(&[kind as u64, n, front, back, arg]);
+        if front > 0 && back < n {
+            cx.probe("iterator op on an iterator consumed from both ends");
+        }
+        if io.model.is_empty() {
+            cx.probe("iterator op on an exhausted iterator");
+        }
+    }
+
+    /// after a destructor panic inside an iterator method the queue model is re-synchronised
+    /// from observation (ids read through as_slice; the walk verifies each is live)
+    pub fn resync_it(&mut self, i: usize) {
+        let io = &mut self.its[i];
+        let ids = with_it!(&io.it; it, N => { let _ = N::USIZE; ids_of(it.as_slice(), 934) });
+        infra(|| {
+            io.model = ids.into_iter().collect();
+        });
+    }
+
+    pub fn check_cb_c08(&self, cx: &mut Cx, what: &str, cb: &Cb<E>, want_args: &[(u32, u32)], result: Option<Vec<u32>>) {
+        if !cx.checks.c08 {
+            return;
+        }
+        if E::HAS_ID {
+            match &result {
+                Some(got) => {
+                    if cb.args != want_args {
+                        fail("C08-call-order", format!("{what}: callback saw {:?}, expected {:?} (index order, once each)", cb.args, want_args));
+                    }
+                    if got != &cb.outs {
+                        fail("C08-result", format!("{what}: result holds {got:?}, call i returned {:?}", cb.outs));
+                    }
+                }
+                None => {
+                    if !(cb.args.len() <= want_args.len() && cb.args[..] == want_args[..cb.args.len()]) {
+                        fail("C08-call-order", format!("{what}: callback saw {:?} before the panic, expected a prefix of {:?}", cb.args, want_args));
+                    }
+                }
+            }
+        } else if result.is_some() && cb.args.len() != want_args.len() {
+            fail("C08-call-order", format!("{what}: callback was called {} times for length {}", cb.args.len(), want_args.len()));
+        }
+    }
 }
 
 pub fn _unused(_: LengthError) {}
